@@ -185,6 +185,16 @@ pub fn report_violations(property: &str, seed: u64, violations: &mut Vec<Violati
                 doc.put("what", Json::s(&v.what));
                 doc.put("note", Json::s("unminimised: the failure depends on earlier calls in the same run; this file replays the complete history of that run"));
                 let _ = std::fs::write(&path, doc.pretty());
+                if reproduces_in_fresh_process(&path) {
+                    // shrink the history (delta debugging, each candidate judged in a fresh process)
+                    for key in ["history", "instants"] {
+                        if let Some(min) = shrink_array_in_fresh_processes(&doc, key, &path) {
+                            doc = min;
+                        }
+                    }
+                    doc.put("note", Json::s("the failure depends on earlier calls in the same run; this file replays the shortest history found that still fails in a fresh process"));
+                    let _ = std::fs::write(&path, doc.pretty());
+                }
                 note = if reproduces_in_fresh_process(&path) {
                     "  (history-dependent: the replay file carries the complete history of the run, unminimised)"
                 } else {
@@ -263,4 +273,59 @@ fn reproduces_in_fresh_process(path: &std::path::Path) -> bool {
         },
         Err(_) => true,
     }
+}
+
+/// ddmin over the array `doc[key]`, keeping the last element (the failing step) and judging every
+/// candidate by replaying it in a fresh process. At most 80 child processes.
+fn shrink_array_in_fresh_processes(doc: &Json, key: &str, scratch: &std::path::Path) -> Option<Json> {
+    let arr = doc.get(key)?.arr()?.clone();
+    if arr.len() < 2 {
+        return None;
+    }
+    let keep_last = key == "instants";
+    let tmp = scratch.with_extension("shrink.json");
+    let mut budget = 80u32;
+    let mut cur = arr;
+    let mut test = |cand: &Vec<Json>, budget: &mut u32| -> bool {
+        if *budget == 0 {
+            return false;
+        }
+        *budget -= 1;
+        let d = doc.clone().set(key, Json::Arr(cand.clone()));
+        if std::fs::write(&tmp, d.to_string()).is_err() {
+            return false;
+        }
+        reproduces_in_fresh_process(&tmp)
+    };
+    let mut n = 2usize;
+    while cur.len() >= 2 && budget > 0 {
+        let body_len = if keep_last { cur.len() - 1 } else { cur.len() };
+        if body_len == 0 {
+            break;
+        }
+        let chunk = (body_len + n - 1) / n;
+        let mut reduced = false;
+        let mut i = 0;
+        while i < body_len {
+            let end = (i + chunk).min(body_len);
+            let mut cand = cur.clone();
+            cand.drain(i..end);
+            if test(&cand, &mut budget) {
+                cur = cand;
+                reduced = true;
+                break;
+            }
+            i += chunk;
+        }
+        if reduced {
+            n = (n - 1).max(2);
+        } else {
+            if chunk <= 1 {
+                break;
+            }
+            n = (n * 2).min(body_len);
+        }
+    }
+    let _ = std::fs::remove_file(&tmp);
+    Some(doc.clone().set(key, Json::Arr(cur)))
 }
